@@ -242,14 +242,53 @@ def check_loops(ctx, chk):
                               f"a condition holds]", "termination with probability 1 is not a "
                               "static fact", loc)
                 continue
-            kind, detail = classify_while(m, w)
+            kind, detail = classify_while(m, w, gcls)
             construct = f"ScenarioGenerator.{name}: while {cond} [{kind}]"
             chk.ob("C15.loop", construct, kind in ("counter", "retry-until-fresh, capacity guard"),
                    detail, loc)
     chk.floor("C15.loop", n, 2, "while loops")
 
 
-def classify_while(m, w):
+def self_calls(m):
+    """calls `self.<method>(...)` in method m: [(call node, method name, {callee param: arg text})]
+    (callee parameter names are resolved by the caller of this function)"""
+    out = []
+    selfn = m.params[0] if m.params else "self"
+    for n in ast.walk(m.node):
+        if isinstance(n, ast.Call) and isinstance(n.func, ast.Attribute) \
+                and isinstance(n.func.value, ast.Name) and n.func.value.id == selfn:
+            out.append((n, n.func.attr))
+    return out
+
+
+def arg_map(call, callee):
+    """{callee parameter name: source text of the argument} for a `self.m(...)` call"""
+    ps = callee.params[1:]
+    out = {}
+    for i, a in enumerate(call.args):
+        if i < len(ps) and not isinstance(a, ast.Starred):
+            out[ps[i]] = ast.unparse(a)
+    for kw in call.keywords:
+        if kw.arg:
+            out[kw.arg] = ast.unparse(kw.value)
+    return out
+
+
+def capacity_guard_before(fn_node, lineno, pool, bound):
+    """a dominating `if len(pool) < bound: ...; continue/return/raise` before line `lineno`"""
+    for node in ast.walk(fn_node):
+        if isinstance(node, ast.If) and node.lineno < lineno:
+            c = node.test
+            if isinstance(c, ast.Compare) and len(c.ops) == 1 and isinstance(c.ops[0], ast.Lt) \
+                    and ast.unparse(c.left) == f"len({pool})" \
+                    and ast.unparse(c.comparators[0]) == bound \
+                    and node.body and isinstance(node.body[-1], (ast.Continue, ast.Return,
+                                                                 ast.Raise)):
+                return True
+    return False
+
+
+def classify_while(m, w, cls=None):
     t = w.test
     if not (isinstance(t, ast.Compare) and len(t.ops) == 1 and isinstance(t.ops[0], ast.Lt)):
         return "unrecognised", "loop condition is not `progress < bound`"
@@ -291,16 +330,18 @@ def classify_while(m, w):
                   and ast.unparse(x.func.value) == pool
                   for s in g.body for x in ast.walk(s))
     bound = ast.unparse(t.comparators[0])
-    guard = False
-    for node in ast.walk(m.node):
-        if isinstance(node, ast.If) and node.lineno < w.lineno and pool is not None:
-            c = node.test
-            if isinstance(c, ast.Compare) and len(c.ops) == 1 and isinstance(c.ops[0], ast.Lt) \
-                    and ast.unparse(c.left) == f"len({pool})" \
-                    and ast.unparse(c.comparators[0]) == bound \
-                    and node.body and isinstance(node.body[-1], (ast.Continue, ast.Return,
-                                                                 ast.Raise)):
-                guard = True
+    guard = pool is not None and capacity_guard_before(m.node, w.lineno, pool, bound)
+    if not guard and pool is not None and cls is not None and pool in m.params \
+            and bound in m.params:
+        # the loop lives in a helper: the guard may sit in front of every call of the helper
+        sites = []
+        for caller in cls.methods.values():
+            for call, name in self_calls(caller):
+                if name == m.name:
+                    am = arg_map(call, m)
+                    sites.append(pool in am and bound in am and capacity_guard_before(
+                        caller.node, call.lineno, am[pool], am[bound]))
+        guard = bool(sites) and all(sites)
     if removed and guard:
         return "retry-until-fresh, capacity guard", ""
     if guard:
@@ -367,12 +408,14 @@ def check_definitions(ctx, chk):
 # ------------------------------------------------------------------------------ (e)
 def check_probs(ctx, chk):
     fi, ip, s, cn = method_run(ctx, "_get_action_probs")
-    guards = [(cn.formula(ev.data["test"]), ev) for ev in s.events if ev.kind == "assert"]
+    from .loaderfacts import extract_guards, closed
+    gs = extract_guards(ip, cn, s.events)
+    guards = [(closed(g.F, g.loops), g) for g in gs]
     P = fi.params[2]
     want_float = f_and([A(f"0.0<{P}"), f_not(A(f"1.0<{P}"))])
-    want_list = f_and([A(f"0.0<each({P})"), f_not(A(f"1.0<each({P})"))])
+    want_list = closed(f_and([A(f"0.0<each({P})"), f_not(A(f"1.0<each({P})"))]), [P])
     okf = any(f_equiv(F, want_float) for F, _ in guards)
-    okl = any(f_equiv(F, want_list) and any(c[0] == "inloop" for c in ev.pc) for F, ev in guards)
+    okl = any(f_equiv(F, want_list) for F, g in guards)
     chk.ob("C15.probs", "_get_action_probs: a float specification is guarded to (0, 1]", okf,
            str([f_show(F) for F, _ in guards]), fi.module.path)
     chk.ob("C15.probs", "_get_action_probs: every element of a list specification is guarded to "
@@ -668,10 +711,26 @@ def check_firewall(ctx, chk):
            bool(f_implies(connected, _drop_atoms(cover, struct))),
            f"union of store conditions: {f_show(cover)[:400]}", fi.module.path)
     # sampling branch: at most `restrictiveness` services
-    w = [x for x in ast.walk(fi.node) if isinstance(x, ast.While)]
-    ok = any(ast.unparse(x.test) == f"len(allowed) < {R}" for x in w)
+    # (the loop may live in a helper that receives the restrictiveness as an argument)
+    import re
+    gcls = ctx.repo.cls(GEN_MOD, "ScenarioGenerator")
+    cands = [(fi, R)]
+    for call, name in self_calls(fi):
+        callee = gcls.methods.get(name)
+        if callee is not None:
+            for p_, a_ in arg_map(call, callee).items():
+                if a_ == R:
+                    cands.append((callee, p_))
+    tests = []
+    ok = False
+    for f_, r_ in cands:
+        for x in ast.walk(f_.node):
+            if isinstance(x, ast.While):
+                tests.append(f"{f_.name}: {ast.unparse(x.test)}")
+                if re.fullmatch(rf"len\(\w+\) < {re.escape(r_)}", ast.unparse(x.test)):
+                    ok = True
     chk.ob("C15.firewall", "sampling branch stops at `restrictiveness` services "
-           f"(while len(allowed) < {R})", ok, str([ast.unparse(x.test) for x in w]), fi.module.path)
+           "(while len(<chosen set>) < restrictiveness)", ok, str(tests), fi.module.path)
 
 
 def is_all_services(val):
@@ -729,74 +788,57 @@ def check_sensitive(ctx, chk):
 
 # ------------------------------------------------------------------------------ core topology
 def check_core_topology(ctx, chk):
-    """the first double loop of _generate_topology has literal bounds: fold it"""
-    repo = ctx.repo
-    m = repo.func(GEN_MOD, "ScenarioGenerator._generate_topology")
-    mod = repo.module(GEN_MOD)
-    consts = {}
-    for name, ex in mod.assigns.items():
-        ok, v = repo.const(mod, ex)
-        if ok and isinstance(v, int):
-            consts[name] = v
-    um = repo.module("nasim.scenarios.utils")
-    ok, inet = repo.const(um, um.assigns.get("INTERNET", ast.Constant(value=None)))
-    outer = [x for x in m.node.body if isinstance(x, ast.For)]
-    if not outer:
-        chk.undecided("C15.core-topology", "_generate_topology: fixed block loop not found")
-        return
-    f0 = outer[0]
+    """the fixed block of _generate_topology is written by a double loop over literal ranges: the
+    path condition of its store is evaluated for every (row, col) of the block - whatever way the
+    exclusions are written (continue, negated if, named booleans)"""
+    from sa.evalterm import eval_term, Undecidable
+    fi, ip, s, cn = method_run(ctx, "_generate_topology")
 
-    def lit_range(it):
-        if isinstance(it, ast.Call) and isinstance(it.func, ast.Name) and it.func.id == "range" \
-                and len(it.args) == 1:
-            okk, v = fold(it.args[0])
-            return v if okk else None
+    def lit_range(lid):
+        it = ip.loops.get(lid, {}).get("iter")
+        if it is not None and it[0] == "call" and it[1] == "builtins.range" and len(it[2]) == 1 \
+                and it[2][0][0] == "const" and isinstance(it[2][0][1], int):
+            return it[2][0][1]
         return None
-
-    def fold(e):
-        if isinstance(e, ast.Constant):
-            return True, e.value
-        if isinstance(e, ast.Name) and e.id in consts:
-            return True, consts[e.id]
-        if isinstance(e, ast.Attribute) and e.attr == "INTERNET":
-            return True, inet
-        if isinstance(e, ast.BinOp) and isinstance(e.op, ast.Add):
-            a, b = fold(e.left), fold(e.right)
-            if a[0] and b[0]:
-                return True, a[1] + b[1]
-        return False, None
-    n = lit_range(f0.iter)
-    inner = [x for x in f0.body if isinstance(x, ast.For)]
-    if n is None or not inner or lit_range(inner[0].iter) != n:
-        chk.undecided("C15.core-topology", "_generate_topology: fixed block bounds are not literal")
+    block = []
+    for ev in s.events:
+        if ev.kind != "store" or ev.data["target"] != "sub":
+            continue
+        loops = [c[1] for c in ev.pc if c[0] == "inloop"]
+        base, idx = ev.data["base"], ev.data["idx"]
+        if len(loops) == 2 and all(lit_range(l) is not None for l in loops) \
+                and base[0] == "sub" and base[2][0] == "elem" and idx[0] == "elem" \
+                and {base[2][2], idx[2]} == set(loops) and ev.data["value"] == C(1):
+            block.append((ev, base[2], idx))
+    if not block:
+        chk.undecided("C15.core-topology", "_generate_topology: no store topology[row][col] = 1 "
+                      "inside a double loop over literal ranges found")
         return
-    rv, cv = f0.target.id, inner[0].target.id
+    n = max(lit_range(l) for ev, r, c in block for l in (r[2], c[2]))
     mat = [[0] * n for _ in range(n)]
-    und = False
-    for r in range(n):
-        for c in range(n):
-            skip = False
-            for st in inner[0].body:
-                if isinstance(st, ast.If) and st.body and isinstance(st.body[0], ast.Continue):
-                    v = eval_bool(st.test, {rv: r, cv: c}, fold)
-                    if v is None:
-                        und = True
-                    elif v:
-                        skip = True
-                        break
-                elif isinstance(st, ast.Assign) and not skip:
-                    mat[r][c] = 1
-            if skip:
-                mat[r][c] = 0
-    if und:
-        chk.undecided("C15.core-topology", "_generate_topology: fixed block conditions not foldable")
+    try:
+        for ev, rt, ct in block:
+            conds = [c for c in ev.pc if c[0] not in ("inloop", "fact")]
+            for r in range(lit_range(rt[2])):
+                for c in range(lit_range(ct[2])):
+                    def lookup(t):
+                        if t == rt:
+                            return r
+                        if t == ct:
+                            return c
+                        raise KeyError(t)
+                    if all(eval_term(x, lookup) for x in conds):
+                        mat[r][c] = 1
+    except (Undecidable, KeyError) as ex:
+        chk.undecided("C15.core-topology", "_generate_topology: fixed block conditions not "
+                      f"evaluable: {str(ex)[:120]}")
         return
     sym = all(mat[r][c] == mat[c][r] for r in range(n) for c in range(n))
     selfc = all(mat[r][r] == 1 for r in range(n))
     public = [r for r in range(1, n) if mat[r][0] == 1]
     chk.ob("C15.core-topology", "fixed internet/DMZ/sensitive/user block is symmetric and "
            "self-connected, and only the DMZ (subnet 1) touches the internet",
-           sym and selfc and public == [1], f"matrix {mat}", f"{m.module.path}:{f0.lineno}")
+           sym and selfc and public == [1], f"matrix {mat}", block[0][0].loc)
 
 
 def eval_bool(e, env, fold):
